@@ -2,7 +2,7 @@
    replays a request history on the cache machine, with H := SHA-256, and
    compares with the identifiers the real implementation answered.          *)
 From Coq Require Import ZArith NArith List Bool.
-From XV Require Import core.Value core.Sha256 model.Hash model.Cache.
+From XV Require Import core.Value core.Sha256 model.Hash model.Cache model.Seal model.StateInv.
 Import ListNotations.
 
 Inductive expect := XDigest (d : bytes) | XSealed | XErr.
@@ -35,3 +35,11 @@ Definition run_case (fixflag : bool) (c : icase) : list answer :=
 Definition check_case (c : icase) : bool := answers_ok (run_case true c) (i_expect c).
 (* the pinned commit's machine (flag never seen by the cache test) *)
 Definition check_case_prefix (c : icase) : bool := answers_ok (run_case false c) (i_expect c).
+
+(* the hypothesis of the cache theorems (C01_cache_sound_cyclic: csound_c; C14: ginv), evaluated on
+   the exported state: sealed set closed, cached identifiers on sealed nodes only and equal to the
+   identifiers computed afresh                                                                  *)
+Definition inv_icase (c : icase) : bool :=
+  ginv_b sha256 (i_classes c) (hash_fuel (i_heap c)) (i_heap c, i_cache c).
+Definition diag_icase (c : icase) : list nat :=
+  ginv_diag sha256 (i_classes c) (hash_fuel (i_heap c)) (i_heap c, i_cache c).
